@@ -124,6 +124,33 @@ pub fn record_cnf(args: &Args) {
             let kind = *rng.pick(&["real", "bool", "ff", "complex", "eu", "rat"]);
             let normalised = rng.coin();
             let ws = gen_weights(&mut rng, kind, nv, normalised);
+            // membership of variables and the primal ("interaction") graph
+            {
+                let mut ev = json!({"ev": "cnf_misc", "cnf": stored_json(&cnf), "nv": nv});
+                let r = guarded(|| {
+                    let inn: Vec<bool> = (0..nv + 2).map(|v| cnf.var_in_cnf(VarLabel::new_usize(v))).collect();
+                    let g = cnf.interaction_graph();
+                    let mut edges: Vec<Vec<usize>> = g
+                        .edge_indices()
+                        .map(|e| {
+                            let (a, b) = g.edge_endpoints(e).unwrap();
+                            let (x, y) = (g[a].value_usize(), g[b].value_usize());
+                            vec![x.min(y), x.max(y)]
+                        })
+                        .collect();
+                    edges.sort();
+                    (inn, g.node_count(), edges)
+                });
+                match r {
+                    Ok((inn, nn, edges)) => {
+                        ev["in"] = json!(inn);
+                        ev["nodes"] = json!(nn);
+                        ev["edges"] = json!(edges);
+                    }
+                    Err(m) => ev["panic"] = json!(m),
+                }
+                out.emit(ev);
+            }
             let mut ev = json!({"ev": "cnf_wmc", "cnf": stored_json(&cnf), "nv": nv});
             ws.log(&mut ev);
             emit_guarded(&mut out, ev, |e| cnf_count(&cnf, &ws, nv, e));
